@@ -24,6 +24,16 @@ FILE_PAIRS = [("out.tsv", "sib.tsv"), ("out.tsv", "sib.tsv"), ("exp.fold0.tsv", 
               ("res 1.tsv", "res 2.tsv"), ("Out.tsv", "out.tsv"), ("x.y.z.tsv", "x.y.tsv"), ("ß.tsv", "s.tsv"), ("data.tsv", "data_panoptica_aggregator_tmp2.tsv")]
 
 
+def _alt_phases(plan, rng):
+    """A restarted run is a new interpreter: later phases (and the loader) run, with probability
+    one half each, in an image of the alternate template (other str-hash seed)."""
+    n = len(plan["phases"])
+    alt = [pi for pi in range(1, n) if rng.random() < 0.5]
+    if plan.get("check_loader") and rng.random() < 0.3:
+        alt.append(n)
+    plan["knobs"]["alt_phases"] = alt
+
+
 def _inputs(rng, spec, n, **kw):
     return {f"k{i}": gen.gen_input(rng, spec, **kw) for i in range(n)}
 
@@ -62,7 +72,7 @@ def plan_c16(seed: int) -> dict:
         "engine": "aggsim", "property": "C16", "seed": seed, "knobs": _knobs(rng),
         "spec": spec, "inputs": inputs, "files": files,
         "phases": [{"sessions": [{"group": "A", "aggs": ["out.tsv"], "tasks": tasks, "end": "graceful",
-                                  "path_kind": rng.choice(["str", "path"])}]}],
+                                  "path_kind": rng.choice(["str", "path"]), "main_stat": rng.random() < 0.3}]}],
         "schedule": None,
     }
 
@@ -144,6 +154,7 @@ def plan_c17(seed: int, *, faults=True) -> dict:
         "engine": "aggsim", "property": "C17", "seed": seed, "knobs": _knobs(rng),
         "spec": spec, "inputs": inputs, "files": files, "phases": phases, "schedule": None,
     }
+    _alt_phases(plan, rng)
     return plan
 
 
@@ -174,7 +185,7 @@ def plan_c18(seed: int) -> dict:
         else:
             tasks = [ops]
         phases.append({"sessions": [{"group": f"S{si}", "aggs": ["out.tsv"], "tasks": tasks, "end": "graceful",
-                                      "path_kind": rng.choice(["str", "path"])}]})
+                                      "path_kind": rng.choice(["str", "path"]), "main_stat": rng.random() < 0.3}]})
     k = _knobs(rng, conc=conc)
     if not conc:
         k["mode"] = "threads"
@@ -274,12 +285,43 @@ def _reorder_later_sessions(plan, rng):
                     sess["spec_variant"] = {"group_order": order}
 
 
+def _add_decoy(plan, rng):
+    """Another evaluator with a related but different configuration is created and used in the
+    same process before the one under test (same instance metrics, other global metrics, ...)."""
+    spec = plan["spec"]
+    if spec.get("stub") is not None or rng.random() > 0.35:
+        return
+    import copy
+
+    d = copy.deepcopy(spec)
+    r = rng.random()
+    pool = ["DSC", "IOU", "RVD", "ASSD"]
+    if r < 0.5:
+        cur = d["glob_metrics"] if d["glob_metrics"] is not None else ["DSC"]
+        d["glob_metrics"] = [m for m in pool if m not in cur][: rng.randint(0, 2)]
+    elif r < 0.8:
+        cur = d["inst_metrics"] if d["inst_metrics"] is not None else ["DSC", "IOU", "ASSD", "RVD"]
+        d["inst_metrics"] = [m for m in cur if rng.random() < 0.6] or ["DSC"]
+        d["decision"] = None
+    else:
+        d["groups"] = None
+    if d.get("ech") is not None:
+        d["ech"] = None if rng.random() < 0.5 else d["ech"]
+        if d["ech"] is not None:
+            for m in set(d["inst_metrics"] or []) | set(d["glob_metrics"] or []) | {"DSC", "IOU", "ASSD", "RVD"}:
+                d["ech"]["metrics"].setdefault(m, {"default": "NAN", "no_instances": None, "empty_pred": None, "empty_ref": None, "normal": None})
+    sess = plan["phases"][rng.randrange(len(plan["phases"]))]["sessions"][0]
+    sess["decoy"] = {"spec": d, "keys": rng.random() < 0.8, "aggregator": rng.random() < 0.5, "log_times": rng.random() < 0.5}
+
+
 def plan_c18(seed: int) -> dict:  # noqa: F811
     rng = random.Random(seed ^ 0x57B)
     plan = _plan_c18_real(seed)
     if rng.random() < 0.3:
         _stubify(plan, rng)
     _reorder_later_sessions(plan, rng)
+    _add_decoy(plan, rng)
+    _alt_phases(plan, rng)
     return plan
 
 
@@ -292,4 +334,5 @@ def plan_c20(seed: int) -> dict:
     plan["property"] = "C20"
     if rng.random() < 0.6:
         _stubify(plan, rng)
+    _alt_phases(plan, rng)
     return plan
